@@ -451,13 +451,13 @@ OBLIGATIONS = [
        functions=[_V + "check_entity", _V + "check_file", _V + "check_tag", _V + "check_multi_tag",
                   _V + "check_section", _V + "check_source"],
        replay=lambda a: _real("_ob_entity_attrs", a)),
-    Ob("tag_consistency", _ob_tag, timeout=900,
+    Ob("tag_consistency", _ob_tag, timeout=900, timeout_by_tier={"thorough": 2700},
        partition_by_tier={"quick": [(1, 1), (2, 1)],
                           "thorough": [(r, (2, k)) for r in (1, 2) for k in range(0, 7)]},
        functions=[_V + "check_tag", _V + "get_dim_units", _V + "tag_units_match_refs_units"],
        replay=lambda a: _real("_ob_tag", a),
        outside="quick: single injections, thorough: pairs; one reference; unit tables"),
-    Ob("multi_tag_consistency", _ob_multi_tag, timeout=900,
+    Ob("multi_tag_consistency", _ob_multi_tag, timeout=900, timeout_by_tier={"thorough": 2700},
        partition_by_tier={"quick": [(1, 1), (2, 1)],
                           "thorough": [(r, (2, k)) for r in (1, 2) for k in range(0, 8)]},
        functions=[_V + "check_multi_tag", _V + "get_dim_units", _V + "tag_units_match_refs_units"],
